@@ -5,6 +5,7 @@ import TantivyModel.Proofs.DocSet.Exclude
 import TantivyModel.Proofs.DocSet.SimpleUnion
 import TantivyModel.Proofs.DocSet.Intersection
 import TantivyModel.Proofs.DocSet.BufferedUnion
+import TantivyModel.Proofs.DocSet.IntersectionCount
 import TantivyModel.Model.DocSet.Tree
 /-!
 # C13 — every DocSet is one sorted sequence under any mix of advance and seek
@@ -165,6 +166,41 @@ branch is tied by the harness only, and provably does not end in a valid state
 FULL STATEMENT: the same with `Inter.ds A` (both count branches). -/
 theorem C13_intersection_lawful_partial (hA : Lawful A VA WA) :
     Lawful (Inter.dsSparse A) (Inter.V VA WA) (Inter.W VA WA) := Inter.lawful_sparse hA
+
+/-- **Dense count.** The block loop of `count_including_deleted_dense` (one fresh 1024-doc mask per
+child, ANDed, popcount, next base = the largest next document) started at `nb` with every child
+valid and positioned at or before `nb` returns the number of common documents `≥ nb` — for all
+children lists and any number of children (unbounded; replaces the five-clause `decide` instance).
+Hypothesis: documents stay `BLOCK_WINDOW` below the end marker, where the trait's default
+`fill_bitset_block` is specified (beyond it the real code would set the TERMINATED bit). -/
+theorem C13_intersection_dense_count (hA : Lawful A VA WA) (s : Inter.State σ) (nb cnt : Nat)
+    (ll lr : List Nat) (los : List (List Nat)) (hL : VA s.left ll) (hR : VA s.right lr)
+    (hO : All2 VA s.others los) (hdl : Spec.doc ll ≤ nb) (hdr : Spec.doc lr ≤ nb)
+    (hdo : ∀ lo ∈ los, Spec.doc lo ≤ nb) (hnb : nb < TERMINATED → nb + BLOCK_WINDOW ≤ TERMINATED)
+    (hsm : ∀ x, (x ∈ ll ∨ x ∈ lr ∨ ∃ lo ∈ los, x ∈ lo) → x + BLOCK_WINDOW ≤ TERMINATED) :
+    (Inter.denseLoop A FUEL nb cnt s).1 = cnt + (Spec.seek nb (Inter.Common ll lr los)).length :=
+  Inter.denseLoop_law hA FUEL (by unfold FUEL; omega) hL hR hO hdl hdr hdo hnb hsm
+
+/-- **Intersection, full.** With both `count_including_deleted` branches (the real `Inter.ds`, for
+every setting of the repair switches): `Lawful` children (whose documents stay `BLOCK_WINDOW` below
+the end marker) ⇒ `Lawful` intersection. Supersedes `C13_intersection_lawful_partial`. -/
+theorem C13_intersection_lawful (hA : Lawful A VA WA)
+    (hsmall : ∀ {c l}, VA c l → ∀ x ∈ l, x + BLOCK_WINDOW ≤ TERMINATED) (fx : Fix) :
+    Lawful (Inter.ds A fx) (Inter.V VA WA) (Inter.W VA WA) := Inter.lawful hA hsmall fx
+
+theorem C13_intersection_program_equiv (hA : Lawful A VA WA)
+    (hsmall : ∀ {c l}, VA c l → ∀ x ∈ l, x + BLOCK_WINDOW ≤ TERMINATED) (fx : Fix)
+    (s : Inter.State σ) (l : List Nat) (hV : Inter.V VA WA s l) (prog : List Op)
+    (hlegal : legalProg ⟨l, none⟩ prog = true) :
+    implRun (Inter.ds A fx) s prog = specRun ⟨l, none⟩ prog :=
+  C13_program_equiv _ _ _ (Inter.lawful hA hsmall fx) prog s l hV hlegal
+
+theorem C13_intersection_end_sticky (hA : Lawful A VA WA)
+    (hsmall : ∀ {c l}, VA c l → ∀ x ∈ l, x + BLOCK_WINDOW ≤ TERMINATED) (fx : Fix)
+    (s : Inter.State σ) (hV : Inter.V VA WA s []) (prog : List Op)
+    (hlegal : legalProg ⟨[], none⟩ prog = true) :
+    implRun (Inter.ds A fx) s prog = specRun ⟨[], none⟩ prog :=
+  (C13_end_sticky _ _ _ (Inter.lawful hA hsmall fx) prog s hV hlegal).1
 
 /-- the abstraction: documents common to all children -/
 theorem C13_intersection_abstraction (ll lr : List Nat) (los : List (List Nat)) (x : Nat) :
@@ -371,6 +407,8 @@ example : legalProg ⟨[1, 5, 9], none⟩
   decide
 example : specRun ⟨[1, 5, 9], none⟩ [.advance, .seek 6, .seekDanger 9, .fillBuffer, .doc]
     = [.doc 5, .doc 9, .sd true, .buf [9], .doc TERMINATED] := by decide
+example : ∀ x ∈ [1, 5, 9000], x + BLOCK_WINDOW ≤ TERMINATED := by decide
+example : Inter.Common [1, 5, 9] [5, 9, 11] [[0, 5, 9], [9]] = [9] := by decide
 example : All2 Vec.V [Vec.init [] 1] [[]] := All2.cons ⟨rfl, Sorted.nil⟩ All2.nil
 example : Exclude.ok [[5, 7], [9]] 1 = true ∧ Exclude.ok [[5, 7], [9]] 9 = false := by decide
 example : Vec.V (Vec.init [1, 5, 9] 2) [1, 5, 9] := ⟨rfl, by
